@@ -169,13 +169,15 @@ class NMEA2000Decoder():
             # The last frame is padded to 8 bytes on the bus: drop everything beyond the announced length
             combined_payload = combined_payload[:fast_pgn.payload_length][::-1]
             
+            # Reset the structure for this PGN. Done before decoding: a payload that fails to decode
+            # must not leave its frames behind to be mixed into the next message on this stream
+            del self.data[fast_packet_key]
+
             nmea = None
             if combined_payload is not None:
                 logger.debug(f"Combined Payload (hex): {combined_payload})")
                 nmea = self._call_decode_function(pgn, priority, src, dest, timestamp, combined_payload, source_iso_name, raw_can_data)
 
-            # Reset the structure for this PGN
-            del self.data[fast_packet_key]
             return nmea
         else:
             logger.debug(f"Waiting for {fast_pgn.payload_length - fast_pgn.bytes_stored} more bytes.")
